@@ -31,6 +31,26 @@ class OnlyLt:
         return f"P({self.v})"
 
 
+class Box:
+    """Queued objects: compared by value, never by identity — every call builds a fresh instance,
+    so `x in q`, `remove(x)` and `find` see an object that is equal to, but not the same as, the queued one."""
+    __slots__ = ("v",)
+
+    def __init__(self, v):
+        self.v = v
+
+    def __eq__(self, o):
+        return isinstance(o, Box) and self.v == o.v
+
+    def __hash__(self):
+        return hash(("Box", self.v))
+
+    def __repr__(self):
+        return str(self.v)
+
+    __str__ = __repr__
+
+
 class _Rand:
     def __init__(self):
         self.value = 0.5
@@ -112,10 +132,10 @@ class RealContainers:
             self.pqs[i] = PriorityQueue()
             return "ok"
         if op == "add":
-            q.add(self.P(int(a[1])), int(a[2]))
+            q.add(self.P(int(a[1])), Box(int(a[2])))
             return "ok"
         if op == "extend":
-            es = [] if a[1] == "-" else [(self.P(int(p)), int(o)) for p, o in
+            es = [] if a[1] == "-" else [(self.P(int(p)), Box(int(o))) for p, o in
                                          (x.split(":") for x in a[1].split(","))]
             q.extend(iter(es))
             return "ok"
@@ -134,24 +154,24 @@ class RealContainers:
         if op == "bool":
             return f"b {1 if q else 0}"
         if op == "in":
-            return f"b {1 if int(a[1]) in q else 0}"
+            return f"b {1 if Box(int(a[1])) in q else 0}"
         if op == "remove":
-            return f"pri {pv(q.remove(int(a[1])))}"
+            return f"pri {pv(q.remove(Box(int(a[1]))))}"
         if op == "find":
-            x = int(a[1])
+            x = Box(int(a[1]))
             r = q.find(lambda o: o == x, remove=a[2] == "1")
             return "none" if r is None else f"item {pv(r[0])} {r[1]}"
         if op == "findmod":
             m, rr = int(a[1]), int(a[2])
-            r = q.find(lambda o: o % m == rr, remove=a[3] == "1")
+            r = q.find(lambda o: o.v % m == rr, remove=a[3] == "1")
             return "none" if r is None else f"item {pv(r[0])} {r[1]}"
         if op == "resched":
-            x = int(a[1])
+            x = Box(int(a[1]))
             r = q.reschedule(lambda o: o == x, self.P(int(a[2])))
             return "none" if r is None else f"obj {r}"
         if op == "reschedmod":
             m, rr = int(a[1]), int(a[2])
-            r = q.reschedule(lambda o: o % m == rr, self.P(int(a[3])))
+            r = q.reschedule(lambda o: o.v % m == rr, self.P(int(a[3])))
             return "none" if r is None else f"obj {r}"
         if op == "refresh":
             q.refresh()
@@ -187,7 +207,7 @@ class RealContainers:
         if op == "sorteditems":
             return self.items(list(q.sorted().items()))
         if op == "items":
-            return self.items(sorted(((pv(p), o) for p, o in q.items())))
+            return self.items(sorted(((pv(p), o.v) for p, o in q.items())))
         if op == "layout":
             return self.items(list(q.items()))
         if op == "seq":
@@ -201,31 +221,31 @@ class RealContainers:
             return "ok"
         q, gp = self.pos(i)
         if op == "gp":
-            gp[int(a[1])] = float(frac(a[2]))
+            gp[Box(int(a[1]))] = float(frac(a[2]))
             return "ok"
         if op == "draw":
             self.rand.value = float(frac(a[1]))
             return "ok"
         if op == "append":
-            q.append(int(a[1]))
+            q.append(Box(int(a[1])))
             return "ok"
         if op == "appendpri":
-            q.append_pri(int(a[1]), float(frac(a[2])))
+            q.append_pri(Box(int(a[1])), float(frac(a[2])))
             return "ok"
         if op == "insert":
-            q.insert(int(a[1]), int(a[2]))
+            q.insert(int(a[1]), Box(int(a[2])))
             return "ok"
         if op == "popleft":
             return f"obj {q.popleft()}"
         if op == "remove":
-            q.remove(int(a[1]))
+            q.remove(Box(int(a[1])))
             return "ok"
         if op == "find":
-            x = int(a[1])
+            x = Box(int(a[1]))
             r = q.find(lambda o: o == x, remove=a[2] == "1")
             return "none" if r is None else f"obj {r}"
         if op == "resched":
-            x = int(a[1])
+            x = Box(int(a[1]))
             r = q.reschedule(lambda o: o == x, float(frac(a[2])))
             return "none" if r is None else f"obj {r}"
         if op == "reschedall":
@@ -241,7 +261,7 @@ class RealContainers:
         if op == "bool":
             return f"b {1 if q else 0}"
         if op == "in":
-            return f"b {1 if int(a[1]) in list(q._pq) else 0}"
+            return f"b {1 if Box(int(a[1])) in q else 0}"
         if op == "drain":
             # non-destructive: drain a copy of the underlying priority queue (popleft on the real
             # object would touch the counters; the object holds a lock and cannot be deep-copied)
